@@ -43,7 +43,10 @@ def gen_population(rng, kind, n):
         lp = [0.0] * n
         lq = [rng.choice([0.0, 1.0]) for _ in range(n)]
     elif kind == "neginf":
-        ll = [g(0, 5) for _ in range(n)]
+        # a subset of the rows has zero weight; the finite ones are ordinary, or all sit far outside the range of exp() (common offset
+        # up to 1e5 either way): the stabilising shift has to come from the FINITE rows
+        off = rng.choice([0.0, 0.0, -4e4, 3e3, -1e5, 3e4])
+        ll = [off + g(0, 5) for _ in range(n)]
         lp = [(-math.inf if rng.random() < 0.4 else g(0, 1)) for _ in range(n)]
         if all(v == -math.inf for v in lp):
             lp[0] = 0.0
@@ -172,6 +175,12 @@ def run(ctx):
                         # deviations (s - mean) are exact to ~eps, so an absolute allowance of a few eps plus a relative one
                         if n > 1 and not close(rel_impl, relerr, (2e-2 if width == "float32" else 1e-6), 64 * eps):
                             ctx.violation(f"rel-error:{kind}:{nsname}:{width}", f"relative evidence error {rel_impl} != {float(relerr)}", full)
+                        # the absolute error (observed at .evidence_error) is the relative one times the evidence, where exp() can hold it
+                        if n > 1 and abs(le_impl) < (80 if width == "float32" else 600) and math.isfinite(rel_impl):
+                            ee = nsutil.to_float(s.evidence_error)
+                            want_ee = rel_impl * math.exp(le_impl)
+                            if not close(ee, want_ee, 1e-3 if width == "float32" else 1e-9, 0.0):
+                                ctx.violation(f"evidence_error:{kind}:{nsname}:{width}", f"evidence_error {ee} != relative error x evidence = {want_ee}", full)
                         for nm, v in (("log_evidence", le_impl), ("ess", ess_impl), ("log_evidence_error", rel_impl)):
                             if not math.isfinite(v):
                                 ctx.violation(f"finite:{nm}:{kind}", f"{nm} = {v} for finite log-densities (magnitude {M:g})", full)
